@@ -80,6 +80,11 @@ pub struct SvgCfg {
     pub warm: Option<(usize, Option<usize>)>,
     /// order in which the setter groups are called (0 = documentation order), see `apply`
     pub order: u8,
+    /// What ANOTHER renderer instance did on this thread just before: 0 nothing; 1..=3 a fresh builder with 2..=4 shape
+    /// layers in explicit colours rendered a small symbol; 4 a fresh builder tried to render a hand-made QRCode value of
+    /// an impossible size (that call panics - caught - or fails). Rendering depends on the QR code and the renderer's own
+    /// options only, so none of this may show in the output under test.
+    pub pred: u8,
 }
 
 /// `via` selects the documented conversion into `Color` that is used: 0 arrays / &str, 1 slices / String,
@@ -199,13 +204,121 @@ impl SvgCfg {
         fast_qr::QRBuilder::new("WARM-UP 123").version(crate::fq::f_version(v.clamp(1, 40))).ecl(fast_qr::ECL::L).build().ok()
     }
 
+    /// Warm-up values: the margin becomes `m0`; with an odd `m0` every last-value-wins option that the final
+    /// configuration sets (module / background / frame colour, image reference, frame shape, image size, gap and
+    /// position) is first given ANOTHER value. Shape layers are left alone (shape() appends, it cannot be undone).
+    fn warm_perturb<B: Builder>(&self, b: &mut B, m0: usize) {
+        b.margin(m0);
+        if m0 % 2 == 0 {
+            return;
+        }
+        let other = |c: &ColorSpec| -> [u8; 4] {
+            match c {
+                ColorSpec::Rgb(x) => [x[0] ^ 0x5a, x[1].wrapping_add(91), !x[2], 255],
+                ColorSpec::Rgba(x) => [!x[0], x[1] ^ 0x33, x[2].wrapping_add(17), x[3] ^ 0x80],
+                ColorSpec::Css(_) => [12, 200, 90, 255],
+            }
+        };
+        if let Some(c) = &self.module_color {
+            b.module_color(other(c));
+        }
+        if let Some(c) = &self.background {
+            b.background_color(other(c));
+        }
+        if let Some(c) = &self.image_bg_color {
+            b.image_background_color(other(c));
+        }
+        if let Some(i) = &self.image {
+            b.image(format!("warm-{}.png", i.len()));
+        }
+        if let Some(s) = self.image_bg_shape {
+            b.image_background_shape(BG_SHAPES[(s + 1) % 3]);
+        }
+        if let Some(s) = self.image_size {
+            b.image_size(s + 1.5);
+        }
+        if let Some(g) = self.image_gap {
+            b.image_gap(g + 0.75);
+        }
+        if let Some((x, y)) = self.image_position {
+            b.image_position(x + 1.0, y - 1.0);
+        }
+    }
+
+    /// ... and back to the final values (only the setters that were touched)
+    fn warm_restore<B: Builder>(&self, b: &mut B, m0: usize) {
+        b.margin(self.margin_eff());
+        if m0 % 2 == 0 {
+            return;
+        }
+        let via = self.order / 7;
+        if let Some(c) = &self.module_color {
+            set_color(b, 0, c, via);
+        }
+        if let Some(c) = &self.background {
+            set_color(b, 1, c, via);
+        }
+        if let Some(c) = &self.image_bg_color {
+            set_color(b, 2, c, via);
+        }
+        if let Some(i) = &self.image {
+            b.image(i.clone());
+        }
+        if let Some(s) = self.image_bg_shape {
+            b.image_background_shape(BG_SHAPES[s]);
+        }
+        if let Some(s) = self.image_size {
+            b.image_size(s);
+        }
+        if let Some(g) = self.image_gap {
+            b.image_gap(g);
+        }
+        if let Some((x, y)) = self.image_position {
+            b.image_position(x, y);
+        }
+    }
+
+    /// see the `pred` field
+    pub fn run_predecessor(&self, raster: bool) {
+        if self.pred == 0 {
+            return;
+        }
+        let _ = crate::engine::catch(|| {
+            if self.pred >= 4 {
+                let bogus = fast_qr::QRCode::default(if self.margin_eff() % 2 == 0 { 178 } else { 200 });
+                if raster {
+                    let _ = fast_qr::convert::image::ImageBuilder::default().to_pixmap(&bogus);
+                } else {
+                    let _ = fast_qr::convert::svg::SvgBuilder::default().to_str(&bogus);
+                }
+                return;
+            }
+            let Some(q0) = Self::warm_qr(Some(1 + self.margin_eff() % 4)) else { return };
+            const COLS: [[u8; 4]; 4] = [[230, 20, 20, 255], [20, 160, 40, 200], [30, 30, 220, 255], [240, 200, 0, 255]];
+            if raster {
+                let mut p = fast_qr::convert::image::ImageBuilder::default();
+                for k in 0..=self.pred as usize {
+                    p.shape_color(SHAPES[(k + self.margin_eff()) % 6], COLS[k % 4]);
+                }
+                let _ = p.to_pixmap(&q0);
+            } else {
+                let mut p = fast_qr::convert::svg::SvgBuilder::default();
+                for k in 0..=self.pred as usize {
+                    p.shape_color(SHAPES[(k + self.margin_eff()) % 6], COLS[k % 4]);
+                }
+                let _ = p.to_str(&q0);
+            }
+        });
+    }
+
     /// SVG string from one SvgBuilder instance, after the optional warm-up render
     pub fn svg_string(&self, q: &fast_qr::QRCode) -> String {
         use fast_qr::convert::svg::SvgBuilder;
+        self.run_predecessor(false);
         let mut b = SvgBuilder::default();
         self.apply(&mut b);
         if let Some((m0, v0)) = self.warm {
-            b.margin(m0);
+            self.warm_perturb(&mut b, m0);
             match Self::warm_qr(v0) {
                 Some(q0) => {
                     let _ = b.to_str(&q0);
@@ -214,15 +327,16 @@ impl SvgCfg {
                     let _ = b.to_str(q);
                 }
             }
-            b.margin(self.margin_eff());
+            self.warm_restore(&mut b, m0);
         }
         b.to_str(q)
     }
 
     /// the same for the raster builder (the caller adds the fit request before and renders after)
     pub fn warm_up_image_builder(&self, ib: &mut fast_qr::convert::image::ImageBuilder, q: &fast_qr::QRCode) {
+        self.run_predecessor(true);
         if let Some((m0, v0)) = self.warm {
-            ib.margin(m0);
+            self.warm_perturb(ib, m0);
             match Self::warm_qr(v0.map(|v| v.min(6))) {
                 Some(q0) => {
                     let _ = ib.to_pixmap(&q0);
@@ -231,7 +345,7 @@ impl SvgCfg {
                     let _ = ib.to_pixmap(q);
                 }
             }
-            ib.margin(self.margin_eff());
+            self.warm_restore(ib, m0);
         }
     }
 
@@ -249,6 +363,7 @@ impl SvgCfg {
             "image_position": self.image_position.map(|(x, y)| vec![x, y]),
             "warm": self.warm.map(|(m, v)| json!([m, v])),
             "order": self.order,
+            "pred": self.pred,
         })
     }
 
@@ -271,6 +386,7 @@ impl SvgCfg {
         c.image_gap = v.get("image_gap").and_then(|x| x.as_f64());
         c.image_position = v.get("image_position").and_then(|x| x.as_array()).and_then(|a| Some((a.get(0)?.as_f64()?, a.get(1)?.as_f64()?)));
         c.order = v.get("order").and_then(|x| x.as_u64()).unwrap_or(0) as u8;
+        c.pred = v.get("pred").and_then(|x| x.as_u64()).unwrap_or(0) as u8;
         c.warm = v.get("warm").and_then(|x| x.as_array()).and_then(|a| Some((a.first()?.as_u64()? as usize, a.get(1).and_then(|x| x.as_u64()).map(|x| x as usize))));
         Some(c)
     }
